@@ -2,7 +2,7 @@
 //!
 //! kind "hist":   in = [nthreads, programs, schedule]
 //!   programs[t] = list of calls of thread t on ONE shared `Pipeline`:
-//!     ["src", [[k,v],..]]            from_vec
+//!     ["src", [[k,v],..]]            from_vec (from_iter when the number of rows is odd)
 //!     ["map", c, [t,k]]              parent.map(|(k,v)| (k, v.bump(c)))
 //!     [builder, a, b, [t,k]]         any other public transform builder, see the table `Op`
 //!                                    (filter, flat_map, map_values, filter_values, map_batches,
@@ -45,7 +45,10 @@
 //!                                       lm 1: len() = Some(total); sp 0: split() = None (the runner
 //!                                       falls back to clone_any), sp 1: split() = the pages as they
 //!                                       are (n ignored), sp 2: split() = the built-in chunking of the
-//!                                       concatenated pages; clone_any() = the concatenated pages
+//!                                       concatenated pages; clone_any() = the concatenated pages;
+//!                                       sp 3: the payload is the plain Vec of the rows and the adapter
+//!                                       is ONE built-in `vec_ops_for::<Row>()` object shared by all
+//!                                       such sources of the case (lm 0: wrapped so that len() = None)
 //!     ["file", a, f, s]                 a streamed source over file f with shard size s.
 //!                                       a = 0: read_{jsonl,csv,parquet}_streaming (a fresh adapter);
 //!                                       a > 0: from_custom_source(p, build_*_shards(file, s), ADAPTER a)
@@ -59,6 +62,9 @@
 //!                                       1004 collect_par_sorted_by_key(None, Some(3));
 //!                                       1005 Runner{Sequential, default_partitions 1}.run_collect;
 //!                                       1006 Runner{Parallel{None,None}, default_partitions 3}.run_collect
+//!                                       1007 / 1008 Runner{Sequential / Parallel{None, Some(2)}} with
+//!                                       checkpointing ENABLED (the two further copies of the engine)
+//!                                       in a directory of its own
 //!     ["digest", mode, [t,k]]           the same, but only [n, sum h, sum (i+1) h] of the rows is
 //!                                       reported (["okd", n, s1, s2]); h = row_hash, see below
 //!
@@ -66,13 +72,14 @@
 use ibv::{Emitter, SplitMix64, Tier, drive};
 use ironbeam::verif::set_yield_hook;
 use ironbeam::collection::LiftableCombiner;
+use ironbeam::checkpoint::{CheckpointConfig, CheckpointPolicy};
 use ironbeam::io::csv::{CsvVecOps, build_csv_shards};
 use ironbeam::io::jsonl::{JsonlVecOps, build_jsonl_shards};
 use ironbeam::io::parquet::{ParquetVecOps, build_parquet_shards};
 use ironbeam::type_token::{VecOps, vec_ops_for};
 use ironbeam::{
     CombineFn, DynOp, ExecMode, PCollection, Partition, Pipeline, Runner, Timestamped, Window,
-    from_custom_source, from_vec, read_csv_streaming, read_jsonl_streaming, read_parquet_streaming,
+    from_custom_source, from_iter, from_vec, read_csv_streaming, read_jsonl_streaming, read_parquet_streaming,
 };
 use serde::{Deserialize, Serialize};
 use serde_json::{Value, json};
@@ -403,6 +410,19 @@ impl Env {
     }
 }
 
+/// a user adapter that reads like the wrapped one but cannot tell the length
+struct NoLen(Arc<dyn VecOps>);
+impl VecOps for NoLen {
+    fn len(&self, _data: &dyn Any) -> Option<usize> {
+        None
+    }
+    fn split(&self, data: &dyn Any, n: usize) -> Option<Vec<Partition>> {
+        self.0.split(data, n)
+    }
+    fn clone_any(&self, data: &dyn Any) -> Option<Partition> {
+        self.0.clone_any(data)
+    }
+}
 /// A user-written source (the shape of the example in the `from_custom_source` documentation and
 /// of tests/extensions.rs): the payload is a list of pages.
 struct Pages(Vec<Vec<Row>>);
@@ -729,7 +749,7 @@ enum Call {
     Collect(usize, Ref, bool),
 }
 fn mode_ok(m: usize) -> bool {
-    m <= 999 || (1000..=1006).contains(&m)
+    m <= 999 || (1000..=1008).contains(&m)
 }
 impl Call {
     /// number of pipeline-lock acquisitions (= yield points) of the call
@@ -792,7 +812,7 @@ fn parse_call(v: &Value, files: &[FileSpec]) -> Option<Call> {
         ("src", 2) => Some(Call::Src(RowsSpec::parse(&a[1])?)),
         ("custom", 4) => {
             let (lm, sp) = (a[1].as_u64()?, a[2].as_u64()?);
-            if lm > 1 || sp > 2 {
+            if lm > 1 || sp > 3 {
                 return None;
             }
             let mut pages = Vec::new();
@@ -983,7 +1003,7 @@ struct Sched {
     m: Mutex<SchedState>,
     cv: Condvar,
 }
-const STEP_LIMIT: Duration = Duration::from_secs(20);
+const STEP_LIMIT: Duration = Duration::from_secs(60);
 
 impl Sched {
     fn new(n: usize) -> Arc<Self> {
@@ -1091,6 +1111,8 @@ struct Shared {
     files: Vec<FileSpec>,
     /// the shared adapter objects, by (format, adapter number >= 1)
     adapters: Mutex<HashMap<(u8, usize), Arc<dyn VecOps>>>,
+    /// ONE built-in Vec adapter shared by the custom sources with split mode 3
+    impl_adapter: Arc<dyn VecOps>,
     table: Mutex<HashMap<Ref, H>>,
     table_cv: Condvar,
     counter: Arc<AtomicUsize>,
@@ -1158,12 +1180,37 @@ fn collect_one<K: Clone + Send + Sync + Ord + 'static, W: Clone + Send + Sync + 
         1004 => p.collect_par_sorted_by_key(None, Some(3)),
         1005 => Runner { mode: ExecMode::Sequential, default_partitions: 1, ..Default::default() }
             .run_collect::<(K, W)>(pl, p.node_id()),
-        _ => Runner {
+        1006 => Runner {
             mode: ExecMode::Parallel { threads: None, partitions: None },
             default_partitions: 3,
             ..Default::default()
         }
         .run_collect::<(K, W)>(pl, p.node_id()),
+        _ => {
+            // checkpointing enabled, every run in a directory of its own (removed afterwards)
+            let dir = PathBuf::from(format!(
+                "/verif/run/C08/scratch/ck-{}-{}",
+                std::process::id(),
+                CASE_NO.fetch_add(1, Ordering::SeqCst)
+            ));
+            let _guard = Scratch(Some(dir.clone()));
+            Runner {
+                mode: if mode == 1007 {
+                    ExecMode::Sequential
+                } else {
+                    ExecMode::Parallel { threads: None, partitions: Some(2) }
+                },
+                default_partitions: 2,
+                checkpoint_config: Some(CheckpointConfig {
+                    enabled: true,
+                    directory: dir,
+                    policy: CheckpointPolicy::AfterEveryBarrier,
+                    auto_recover: true,
+                    max_checkpoints: Some(3),
+                }),
+            }
+            .run_collect::<(K, W)>(pl, p.node_id())
+        }
     };
     match r {
         Ok(v) => {
@@ -1184,7 +1231,12 @@ fn exec_call(sh: &Shared, t: usize, next: &mut usize, call: &Call) -> Value {
     match call {
         Call::Src(d) => {
             let rows: Vec<Row> = d.rows().iter().map(|(k, v)| (*k, Val::I(*v))).collect();
-            let h = from_vec(sh.pipeline(t), rows);
+            // the twin entry point from_iter for listed sources with an odd number of rows
+            let h = if matches!(d, RowsSpec::List(_)) && rows.len() % 2 == 1 {
+                from_iter(sh.pipeline(t), rows.into_iter())
+            } else {
+                from_vec(sh.pipeline(t), rows)
+            };
             let id = h.node_id().raw();
             sh.publish((t, *next), H::G(h));
             *next += 1;
@@ -1195,8 +1247,17 @@ fn exec_call(sh: &Shared, t: usize, next: &mut usize, call: &Call) -> Value {
                 .iter()
                 .map(|pg| pg.iter().map(|(k, v)| (*k, Val::I(*v))).collect())
                 .collect();
-            let h: PCollection<Row> =
-                from_custom_source(sh.pipeline(t), Pages(pages), Arc::new(PagesOps { lm: *lm, sp: *sp }));
+            let h: PCollection<Row> = if *sp == 3 {
+                let flat: Vec<Row> = pages.into_iter().flatten().collect();
+                let ops: Arc<dyn VecOps> = if *lm == 1 {
+                    Arc::clone(&sh.impl_adapter)
+                } else {
+                    Arc::new(NoLen(Arc::clone(&sh.impl_adapter)))
+                };
+                from_custom_source(sh.pipeline(t), flat, ops)
+            } else {
+                from_custom_source(sh.pipeline(t), Pages(pages), Arc::new(PagesOps { lm: *lm, sp: *sp }))
+            };
             let id = h.node_id().raw();
             sh.publish((t, *next), H::G(h));
             *next += 1;
@@ -1380,6 +1441,7 @@ fn new_shared(wait: bool, env: &Env) -> Option<(Arc<Shared>, Scratch)> {
         paths,
         files: env.files.clone(),
         adapters: Mutex::new(HashMap::new()),
+        impl_adapter: vec_ops_for::<Row>(),
         table: Mutex::new(HashMap::new()),
         table_cv: Condvar::new(),
         counter: Arc::new(AtomicUsize::new(0)),
@@ -1556,7 +1618,8 @@ fn gen_rows(rng: &mut SplitMix64) -> Vec<(i64, i64)> {
 
 /// collect modes of the rich families: every public collect entry point, small and large
 /// partition counts
-const RICH_MODES: [usize; 16] = [0, 0, 1, 2, 3, 4, 7, 16, 64, 1000, 1001, 1002, 1003, 1004, 1005, 1006];
+const RICH_MODES: [usize; 18] =
+    [0, 0, 1, 2, 3, 4, 7, 16, 64, 1000, 1001, 1002, 1003, 1004, 1005, 1006, 1007, 1008];
 
 /// a random environment: 1..3 pipelines, 2..5 small files.  Line counts are drawn around one
 /// count per case so that files with EQUAL line ranges (and different contents) are frequent.
@@ -1634,7 +1697,7 @@ impl Gen {
                         (0..m).map(|_| (rng.range(0, 2), rng.range(0, 9))).collect()
                     })
                     .collect();
-                Call::Custom(rng.below(2) as u8, rng.below(3) as u8, pages)
+                Call::Custom(rng.below(2) as u8, rng.below(4) as u8, pages)
             }
             _ if !self.env.files.is_empty() => {
                 let f = rng.below(self.env.files.len() as u64) as usize;
@@ -2070,10 +2133,11 @@ fn scenario_share(rng: &mut SplitMix64, em: &mut Emitter, fmt: u8, n: usize, two
     handles.push((t1, made[t1]));
     made[t1] += 1;
     // collects: every handle in both kinds of mode, in a seeded order, some repeated
-    let par_modes: Vec<usize> = if n > 128 { vec![1, 2, 3, 64, 1000] } else { vec![1, 2, 3, 4, 7, 16, 64, 1000, 1006] };
+    let par_modes: Vec<usize> =
+        if n > 128 { vec![1, 2, 3, 64, 1000] } else { vec![1, 2, 3, 4, 7, 16, 64, 1000, 1006, 1008] };
     let mut todo: Vec<(Ref, usize)> = Vec::new();
     for h in &handles {
-        todo.push((*h, *rng.pick(&[0usize, 0, 1001, 1005])));
+        todo.push((*h, *rng.pick(&[0usize, 0, 1001, 1005, 1007])));
         todo.push((*h, *rng.pick(&par_modes)));
     }
     for _ in 0..3 {
@@ -2257,7 +2321,7 @@ fn generate(seed: u64, tier: Tier, em: &mut Emitter) {
             }
         }
         for lm in 0..2u8 {
-            for sp in 0..3u8 {
+            for sp in 0..4u8 {
                 for &n in &SMALL_SIZES {
                     scenario_custom(&mut srng, em, lm, sp, n, false);
                 }
